@@ -12,7 +12,7 @@ Extraction "c07_model.ml"
   c07_seq_iallgather c07_seq_iallgather_cur
   c07_dt_basic c07_traits_generic c07_traits_fieldvector c07_traits_bigunsignedint c07_traits_pair
   c07_traits_plocalindex c07_traits_indexpair c07_tm_size c07_tm_wfb c07_transfer c07_obj_values c07_obj_store
-  c07_pkn_write c07_pkn_read c07_pk_seek c07_pk_tell c07_pk_size c07_pk_eof c07_pk_empty c07_tm_ptype
+  c07_pkn_write c07_pkn_read c07_pkn_item_bytes c07_pk_seek c07_pk_tell c07_pk_size c07_pk_eof c07_pk_empty c07_tm_ptype
   c07_get_count c07_resize c07_rrecv c07_recv
   c07_spec_apply c07_rt_gather c07_rt_allgather c07_rt_scatter c07_rt_bcast c07_rt_gatherv c07_rt_allgatherv
   c07_rt_scatterv c07_spec_allreduce c07_spec_transfer.
